@@ -1184,7 +1184,11 @@ where
 {
     // Check if we have something that resembles an answer.
     let mut question_section = msg.question();
-    let question = question_section.next().expect("section expected")?;
+    let Some(question) = question_section.next() else {
+        // A response without a question. Don't cache this.
+        return Ok(NoErrorType::NoErrorWeird);
+    };
+    let question = question?;
     let qtype = question.qtype();
     let qclass = question.qclass();
 
